@@ -13,7 +13,8 @@ import (
 
 // Generator handles HTTP client code generation for protobuf services.
 type Generator struct {
-	plugin *protogen.Plugin
+	plugin       *protogen.Plugin
+	globalUnwrap *GlobalUnwrapInfo // Global unwrap info collected from all files
 }
 
 // New creates a new HTTP client generator.
@@ -25,6 +26,13 @@ func New(plugin *protogen.Plugin) *Generator {
 
 // Generate processes all files and generates HTTP clients.
 func (g *Generator) Generate() error {
+	// Collect global unwrap information from ALL files first (cross-file unwrap resolution)
+	var err error
+	g.globalUnwrap, err = CollectGlobalUnwrapInfo(g.plugin.Files)
+	if err != nil {
+		return fmt.Errorf("collecting global unwrap info: %w", err)
+	}
+
 	for _, file := range g.plugin.Files {
 		if !file.Generate {
 			continue
@@ -40,6 +48,12 @@ func (g *Generator) generateFile(file *protogen.File) error {
 	// Validate enum annotations first - fail fast if conflicting annotations exist
 	if err := g.validateEnumAnnotationsInFile(file); err != nil {
 		return fmt.Errorf("enum annotation validation failed: %w", err)
+	}
+
+	// Generate unwrap file if there are messages with unwrap annotations (the same file go-http emits:
+	// a package generated with go-client alone needs these codecs to read what the server sends)
+	if err := g.generateUnwrapFile(file); err != nil {
+		return err
 	}
 
 	// Generate nullable encoding file if there are messages with nullable fields
